@@ -73,7 +73,7 @@ def work(item):
     spanf, transp, guard = MODULES[name]
     res = Result()
     values, stats = e2.valid_set(name, m, tier, depth=1 if tier != 'thorough' else 2,
-                                 cap=1500 if tier != 'thorough' else 20000)
+                                 cap=1500 if tier != 'thorough' else 8000)
     values = sorted(set(values) | set(_full_space(name, m, tier)))
     n = 0
     used = 0
